@@ -400,3 +400,430 @@ func (c *Ctx) c14successTargets(fn *ssa.Function) []RetPoint {
 	}
 	return out
 }
+
+// ---------------------------------------------------------------------------
+// Deep view of one codec function: the function with the unexported same-module helpers it calls spliced in
+// (one frame per call, help_c09.go), so that a step a contributor moved into a helper is still found. Calls of
+// the codec API itself (integer encoders/decoders, PutBytes, ensureData, FlushFrame) stay units.
+
+type c14deep struct {
+	c    *Ctx
+	e    *c14env
+	top  *cxFrame
+	recv ssa.Value // the *Message of the anchored function
+	unit map[*ssa.Function]bool
+	// unitCall, when set, keeps further calls as units (e.g. a consumer handed the announced length)
+	unitCall func(fr *cxFrame, call ssa.CallInstruction) bool
+	frames   []*cxFrame // top and every helper frame, in call order
+}
+
+func (c *Ctx) c14deepOf(e *c14env, fn *ssa.Function, units ...*ssa.Function) *c14deep {
+	d := &c14deep{c: c, e: e, top: cxTop(fn), unit: map[*ssa.Function]bool{}}
+	if len(fn.Params) > 0 {
+		d.recv = fn.Params[0]
+	}
+	for _, u := range units {
+		if u != nil {
+			d.unit[u] = true
+		}
+	}
+	d.unit[e.ensure] = true
+	return d
+}
+
+// expand: the call is followed into its callee.
+func (d *c14deep) expand(fr *cxFrame, call ssa.CallInstruction) bool {
+	g := calleeFn(call)
+	if g == nil || d.unit[g] {
+		return false
+	}
+	if _, isCall := call.(*ssa.Call); !isCall {
+		return false
+	}
+	if d.unitCall != nil && d.unitCall(fr, call) {
+		return false
+	}
+	return fr.cxHelper(g) && len(callArgs(call)) == len(g.Params)
+}
+
+// walk lists the frames (top first) reached through expanded calls.
+func (d *c14deep) walk() []*cxFrame {
+	if d.frames != nil {
+		return d.frames
+	}
+	var out []*cxFrame
+	var rec func(fr *cxFrame)
+	rec = func(fr *cxFrame) {
+		out = append(out, fr)
+		allInstrs(fr.fn, func(_ *ssa.BasicBlock, _ int, in ssa.Instruction) {
+			if call, ok := in.(*ssa.Call); ok && d.expand(fr, call) {
+				if sub := fr.enter(call); sub != nil {
+					rec(sub)
+				}
+			}
+		})
+	}
+	rec(d.top)
+	d.frames = out
+	return out
+}
+
+func (d *c14deep) isRecv(fr *cxFrame, base ssa.Value) bool {
+	r := fr.resolve(base)
+	return r.fr == d.top && r.v == d.recv
+}
+
+// num resolves v through numeric/string conversions and helper parameters to the value the anchored function
+// (or the helper that computes it) defines.
+func (d *c14deep) num(fr *cxFrame, v ssa.Value) cxVal {
+	cur := cxVal{fr, v}
+	for i := 0; i < 16; i++ {
+		sv := c14stripNum(stripConv(cur.v))
+		r := cur.fr.resolve(sv)
+		if r.fr == cur.fr && r.v == cur.v {
+			break
+		}
+		cur = r
+	}
+	return cur
+}
+
+// c14site is an instruction in its frame.
+type c14site struct {
+	fr *cxFrame
+	in ssa.Instruction
+}
+
+type c14duse struct {
+	c14bufUse
+	fr *cxFrame
+}
+
+// uses enumerates the uses of Message.buffer (of the anchored function's own message) in every frame.
+func (d *c14deep) uses() (uses []c14duse, unknown []ssa.Instruction) {
+	for _, fr := range d.walk() {
+		us, un := d.e.c14bufUses(fr.fn)
+		for _, u := range us {
+			if d.isRecv(fr, u.Base) {
+				uses = append(uses, c14duse{u, fr})
+			}
+		}
+		unknown = append(unknown, un...)
+	}
+	return
+}
+
+// calls enumerates, in every frame, the calls match accepts.
+func (d *c14deep) calls(match func(fr *cxFrame, call ssa.CallInstruction) bool) []c14site {
+	var out []c14site
+	for _, fr := range d.walk() {
+		allInstrs(fr.fn, func(_ *ssa.BasicBlock, _ int, in ssa.Instruction) {
+			if call, ok := in.(ssa.CallInstruction); ok && match(fr, call) {
+				out = append(out, c14site{fr, in})
+			}
+		})
+	}
+	return out
+}
+
+func (d *c14deep) callsTo(objs ...types.Object) []c14site {
+	return d.calls(func(_ *cxFrame, call ssa.CallInstruction) bool {
+		_, ok := isCallTo(call, objs...)
+		return ok
+	})
+}
+
+// search prepares a path search over the spliced control flow; error returns of helpers are recognised with the
+// engine's classification (refined for result cells, help_c08.go).
+func (d *c14deep) search() *cxSearch {
+	cls := map[*ssa.Function][]RetPoint{}
+	return &cxSearch{
+		expand: d.expand,
+		errRet: func(fn *ssa.Function, ret *ssa.Return, via *ssa.BasicBlock) bool {
+			rs, ok := cls[fn]
+			if !ok {
+				rs = d.c.returnsOf(fn)
+				cls[fn] = rs
+			}
+			for _, r := range rs {
+				if r.Ret == ret && (r.Pred == nil || r.Pred == via) {
+					return c08RetClass(d.c, fn, r) == "error"
+				}
+			}
+			return false
+		},
+	}
+}
+
+func c14siteSet(sites []c14site) map[c14site]bool {
+	m := map[c14site]bool{}
+	for _, s := range sites {
+		m[s] = true
+	}
+	return m
+}
+
+// reach: is there a path from start to one of the targets that passes no cut edge (cutEdge) and no cut site?
+func (d *c14deep) reach(start cxPoint, targets map[c14site]bool, cutSites map[c14site]bool, cutEdge func(*cxFrame, Edge) bool) []*ssa.BasicBlock {
+	s := d.search()
+	s.cutEdge = cutEdge
+	s.cutInstr = func(fr *cxFrame, in ssa.Instruction) bool { return cutSites[c14site{fr, in}] }
+	s.target = func(fr *cxFrame, in ssa.Instruction, _ *ssa.BasicBlock) bool { return targets[c14site{fr, in}] }
+	return s.find(start)
+}
+
+// reachRet: a path from start to a (possibly) successful return of the anchored function.
+func (d *c14deep) reachRet(start cxPoint, rets []RetPoint, cutSites map[c14site]bool, cutEdge func(*cxFrame, Edge) bool) []*ssa.BasicBlock {
+	s := d.search()
+	s.cutEdge = cutEdge
+	s.cutInstr = func(fr *cxFrame, in ssa.Instruction) bool { return cutSites[c14site{fr, in}] }
+	s.target = func(fr *cxFrame, in ssa.Instruction, via *ssa.BasicBlock) bool {
+		if fr != d.top {
+			return false
+		}
+		for _, r := range rets {
+			if ssa.Instruction(r.Ret) == in && (r.Pred == nil || r.Pred == via) {
+				return true
+			}
+		}
+		return false
+	}
+	return s.find(start)
+}
+
+// boolEdgesOf: cutEdge predicates for "the boolean value (vfr, v) is true" / "is false": branches on the value
+// itself, in its own frame or on a helper parameter it was handed to.
+func (d *c14deep) boolEdgesOf(vfr *cxFrame, v ssa.Value) (isTrue, isFalse func(*cxFrame, Edge) bool) {
+	side := func(fr *cxFrame, e Edge) (onTrue, ok bool) {
+		ifi := blockIf(e.From)
+		if ifi == nil || len(e.From.Succs) != 2 {
+			return false, false
+		}
+		a := condAtom(ifi.Cond)
+		if a.Op != token.ILLEGAL {
+			return false, false
+		}
+		r := fr.resolve(a.X)
+		if r.fr != vfr || r.v != v {
+			return false, false
+		}
+		t := e.Succ == 0
+		if a.Neg {
+			t = !t
+		}
+		return t, true
+	}
+	isTrue = func(fr *cxFrame, e Edge) bool { t, ok := side(fr, e); return ok && t }
+	isFalse = func(fr *cxFrame, e Edge) bool { t, ok := side(fr, e); return ok && !t }
+	return
+}
+
+// succEdgesOf: for calls whose error result is tested in their own frame the nil-error edges; the calls whose
+// error is only handed on to the frame's own return are returned as sites (passing them is passing the call:
+// the helper succeeds only if they did, and its caller tests that).
+func (d *c14deep) succOf(sites []c14site) (edges map[*cxFrame]map[Edge]bool, whole map[c14site]bool) {
+	edges = map[*cxFrame]map[Edge]bool{}
+	whole = map[c14site]bool{}
+	for _, s := range sites {
+		v, ok := s.in.(ssa.Value)
+		if !ok {
+			continue
+		}
+		if succ, _, checked := callErrEdges(s.fr.fn, v); checked {
+			if edges[s.fr] == nil {
+				edges[s.fr] = map[Edge]bool{}
+			}
+			for _, e := range succ {
+				edges[s.fr][e] = true
+			}
+			continue
+		}
+		only := len(errResults(v)) > 0
+		for _, ev := range errResults(v) {
+			if !c09OnlyReturned(ev) {
+				only = false
+			}
+		}
+		if only {
+			whole[s] = true
+		}
+	}
+	return
+}
+
+// c14mentionsDeep: does v (in fr) mention a value pred accepts, looking through the results of expanded helpers
+// and through helper parameters?
+func (d *c14deep) mentionsDeep(fr *cxFrame, v ssa.Value, pred func(*cxFrame, ssa.Value) bool) bool {
+	type key struct {
+		fr *cxFrame
+		v  ssa.Value
+	}
+	seen := map[key]bool{}
+	var walk func(fr *cxFrame, v ssa.Value, depth int) bool
+	walk = func(fr *cxFrame, v ssa.Value, depth int) bool {
+		if v == nil || depth > 60 || seen[key{fr, v}] {
+			return false
+		}
+		seen[key{fr, v}] = true
+		if pred(fr, v) {
+			return true
+		}
+		switch x := v.(type) {
+		case *ssa.Parameter, *ssa.FreeVar:
+			if r := fr.resolve(v); r.fr != fr {
+				return walk(r.fr, r.v, depth+1)
+			}
+			return false
+		case *ssa.Call:
+			if d.expand(fr, x) {
+				if sub := fr.enter(x); sub != nil {
+					for _, ret := range cxReturns(sub.fn) {
+						for _, r := range ret.Results {
+							if walk(sub, r, depth+1) {
+								return true
+							}
+						}
+					}
+				}
+			}
+		}
+		if in, ok := v.(ssa.Instruction); ok {
+			for _, op := range in.Operands(nil) {
+				if *op != nil && walk(fr, *op, depth+1) {
+					return true
+				}
+			}
+		}
+		return false
+	}
+	return walk(fr, v, 0)
+}
+
+// leaves traces v back through numeric conversions, helper parameters (to the caller's argument), phis and the
+// results of expanded value helpers (every return) to the values that compute it.
+func (d *c14deep) leaves(fr *cxFrame, v ssa.Value) []cxVal {
+	var out []cxVal
+	seen := map[cxVal]bool{}
+	var walk func(fr *cxFrame, v ssa.Value, depth int)
+	walk = func(fr *cxFrame, v ssa.Value, depth int) {
+		v = c14stripNum(stripConv(v))
+		k := cxVal{fr, v}
+		if v == nil || seen[k] {
+			return
+		}
+		seen[k] = true
+		if depth > 24 {
+			out = append(out, k)
+			return
+		}
+		switch x := v.(type) {
+		case *ssa.Parameter, *ssa.FreeVar:
+			if r := fr.resolve(v); r.fr != fr {
+				walk(r.fr, r.v, depth+1)
+				return
+			}
+		case *ssa.Phi:
+			for _, e := range x.Edges {
+				walk(fr, e, depth+1)
+			}
+			return
+		case *ssa.Call, *ssa.Extract:
+			call, idx := originCall(v)
+			if cc, ok := call.(*ssa.Call); ok && d.expand(fr, cc) {
+				if sub := fr.enter(cc); sub != nil {
+					n := 0
+					for _, ret := range cxReturns(sub.fn) {
+						if idx < len(ret.Results) {
+							n++
+							walk(sub, ret.Results[idx], depth+1)
+						}
+					}
+					if n > 0 {
+						return
+					}
+				}
+			}
+		}
+		out = append(out, k)
+	}
+	walk(fr, v, 0)
+	return out
+}
+
+// c14chain is one way a value is computed from a source by numeric conversions only: the types from the
+// source's type to the value's type.
+type c14chain struct {
+	src   cxVal
+	types []types.Type
+}
+
+// convChains walks back from v through numeric conversions, helper parameters (to the caller's argument),
+// phis and the results of expanded value helpers and returns every (source, type chain) it finds.
+func (d *c14deep) convChains(fr *cxFrame, v ssa.Value) []c14chain {
+	var out []c14chain
+	var walk func(fr *cxFrame, v ssa.Value, rev []types.Type, depth int)
+	walk = func(fr *cxFrame, v ssa.Value, rev []types.Type, depth int) {
+		for i := 0; i < 32; i++ {
+			rev = append(rev, v.Type())
+			switch x := v.(type) {
+			case *ssa.Convert:
+				v = x.X
+				continue
+			case *ssa.ChangeType:
+				v = x.X
+				continue
+			}
+			break
+		}
+		finish := func() {
+			ch := make([]types.Type, 0, len(rev))
+			for i := len(rev) - 1; i >= 0; i-- {
+				if len(ch) == 0 || !types.Identical(ch[len(ch)-1], rev[i]) {
+					ch = append(ch, rev[i])
+				}
+			}
+			out = append(out, c14chain{cxVal{fr, v}, ch})
+		}
+		if depth > 12 {
+			finish()
+			return
+		}
+		switch x := v.(type) {
+		case *ssa.Parameter, *ssa.FreeVar:
+			if r := fr.resolve(v); r.fr != fr {
+				walk(r.fr, r.v, append([]types.Type{}, rev...), depth+1)
+				return
+			}
+		case *ssa.Phi:
+			for _, e := range x.Edges {
+				walk(fr, e, append([]types.Type{}, rev...), depth+1)
+			}
+			return
+		case *ssa.Call, *ssa.Extract:
+			call, idx := originCall(v)
+			if cc, ok := call.(*ssa.Call); ok && d.expand(fr, cc) {
+				if sub := fr.enter(cc); sub != nil {
+					n := 0
+					errRet := map[*ssa.Return]bool{}
+					for _, r := range d.c.returnsOf(sub.fn) {
+						if r.Class == "error" && r.Pred == nil {
+							errRet[r.Ret] = true
+						}
+					}
+					for _, ret := range cxReturns(sub.fn) {
+						if idx < len(ret.Results) && !errRet[ret] {
+							n++
+							walk(sub, ret.Results[idx], append([]types.Type{}, rev...), depth+1)
+						}
+					}
+					if n > 0 {
+						return
+					}
+				}
+			}
+		}
+		finish()
+	}
+	walk(fr, v, nil, 0)
+	return out
+}
